@@ -264,3 +264,19 @@ check(
     "DESIGN.md section 3 C07",
     "gridlab",
 )
+
+ENGINES[-1 if ENGINES[-1]["name"] == "gridlab" else 2]["serves_properties"].append("C11")
+check(
+    "C11",
+    "exploration",
+    "For generated grids with rectangular, chamfered (slanted targets), tilted and subdivided/perturbed wall polygons "
+    "(clockwise or anticlockwise input, up to 40 vertices, guards 0..3): exact rational point-polyline distance of every "
+    "surface's target faces (non-orthogonal) / the separatrix target (orthogonal), exact point-in-polygon side of cell "
+    "centres between and beyond the targets, penalty_mask recomputed from the cell's two y-face points with the exact "
+    "wall crossing, and closed_wall_R/Z against the input wall (anticlockwise, closed).",
+    "Trusted base: vf/exactgeom.py (fractions). Tolerances derived from refine_atol, |grad psi| and the sagitta of a "
+    "FineContour chord.",
+    "generated-grid PBT with exact-geometry oracle",
+    "DESIGN.md section 3 C11",
+    "gridlab",
+)
